@@ -452,9 +452,7 @@ func (self *Analyzer) importItem(node pAst.ImportStatement) ast.AnalyzedImport {
 						item.Span,
 					)
 
-					if _, prevFound := self.currentModule.addTemplate(item.Ident, templ); prevFound {
-						self.error(fmt.Sprintf("Template '%s' already exists in current scope", item.Ident), nil, item.Span)
-					}
+					// (nothing is added to the scope: there is no such template)
 					continue
 				}
 
@@ -474,9 +472,7 @@ func (self *Analyzer) importItem(node pAst.ImportStatement) ast.AnalyzedImport {
 						item.Span,
 					)
 
-					if _, prevFound := self.currentModule.addTrigger(item.Ident, trigg); prevFound {
-						self.error(fmt.Sprintf("Trigger '%s' already exists in current scope", item.Ident), nil, item.Span)
-					}
+					// (nothing is added to the scope: a trigger without types would crash its later uses)
 					continue
 				}
 
